@@ -244,7 +244,9 @@ class QR {
 
         // Returns element of the matrix R.
         value_type R(int i, int j) const {
-            if (j < i) return math::zero<value_type>();
+            // R is min(m,n) by n upper trapezoidal: there is nothing stored
+            // below its last row when the matrix has fewer rows than columns.
+            if (j < i || i >= m) return math::zero<value_type>();
             return r[i*row_stride + j*col_stride];
         }
 
